@@ -37,6 +37,10 @@ func (c *Conversation) sendMessageOnPlaintext(message ValidMessage, trace ...int
 	if c.Policies.has(requireEncryption) {
 		c.messageEvent(MessageEventEncryptionRequired, trace...)
 		c.updateLastSent()
+		if c.resend.mayRetransmit != retransmitExact {
+			// what is remembered from an earlier session has been sent already
+			c.resend.clear()
+		}
 		c.updateMayRetransmitTo(retransmitExact)
 		c.lastMessage(MessagePlaintext(makeCopy(message)), trace...)
 		return []ValidMessage{c.QueryMessage()}, nil
